@@ -137,6 +137,21 @@ claim('C07',
       'Trusted: python ast, E1 types, the reference table port->enclosing scope of the encapsulee, formal/reply type->'
       'declaring interface scope (Dezyne scoping rules).')
 
+claim('C05',
+      'cross-table agreement over python ast: <class> dispatch vs assert_class literal vs return type vs container '
+      'element type; field-set and JSON-key provenance per constructor against the Dezyne schema table; cardinality '
+      'judgement on list-valued fields; decoder totality/injectivity',
+      'Static rule set: per dispatch branch the tested <class> literal, the class the called parse function asserts, '
+      'its return type and the FileContents container agree, each container has one writer, each branch appends once, '
+      'every declaration class (plus file-name, import, namespace) has a branch and nested enums/subints are hoisted; '
+      'unknown classes / non-dict elements cannot abort siblings and namespaces recurse over every sub-element under a '
+      'child scope; every parse_X passes all fields of X, each fed from the getter for its Dezyne JSON key, with fqn = '
+      'parent scope + own name; list fields are order- and cardinality-preserving maps; the string->enum decoders are '
+      'total, injective and name-preserving. The values of fully-qualified names and whole-document round-trip equality '
+      'are value-level and are NOT decided.',
+      'Trusted: python ast, the Dezyne JSON schema table (ast field <-> JSON key, class <-> <class> tag) embedded in '
+      'rules/c05.py - it is the external format and the public field names, not a copy of the code.')
+
 _pending = 'check not built yet in this round (design in DESIGN.md section 3); will be claimed when its rules run clean'
 for _n in range(1, 21):
     _p = f'C{_n:02d}'
